@@ -12,6 +12,9 @@ use cadence::StatsdClient;
 use std::cell::UnsafeCell;
 use std::error::Error;
 use std::fmt::{self, Display, Formatter};
+#[cfg(cadence_verif)]
+use crate::verif_shim::{AtomicUsize, Ordering};
+#[cfg(not(cadence_verif))]
 use std::sync::atomic::{AtomicUsize, Ordering};
 use std::sync::Arc;
 
@@ -54,6 +57,8 @@ impl<T> SingletonHolder<T> {
 
         // SAFETY: We've ensured that the state is "complete" and the
         // set method has completed and set a value for the UnsafeCell.
+        #[cfg(cadence_verif)]
+        crate::verif_shim::cell_read(self.value.get());
         unsafe { &*self.value.get() }.clone()
     }
 
@@ -76,6 +81,8 @@ impl<T> SingletonHolder<T> {
         // we've ensured that the state was previously "unset" and we've been able
         // to compare-and-swap it to "loading".
         let ptr = self.value.get();
+        #[cfg(cadence_verif)]
+        crate::verif_shim::cell_write(ptr);
         unsafe {
             *ptr = Some(Arc::new(val));
         }
